@@ -193,3 +193,21 @@ func (p *SolverPool) Solve(query string, timeout time.Duration, needTwo bool, wa
 	p.mu.Unlock()
 	return best
 }
+
+// SolveOne runs only z3 5.1 on a query (no cache, no race); used for the cheap first attempt.
+func (p *SolverPool) SolveOne(query string, timeout time.Duration) SolverResult {
+	h := sha256.Sum256([]byte(query))
+	key := hex.EncodeToString(h[:])
+	file := filepath.Join(p.workDir, "l"+key[:24]+".smt2")
+	os.WriteFile(file, []byte(query), 0o644)
+	defer os.Remove(file)
+	r := runOne(context.Background(), solvers[0], file, timeout)
+	p.mu.Lock()
+	p.totalT += r.Time
+	p.queries++
+	if r.Status == "unsat" {
+		p.wins[r.Solver+"/lite"]++
+	}
+	p.mu.Unlock()
+	return r
+}
